@@ -84,6 +84,10 @@ impl UrlPath {
             previous_char = Some(_char.clone());
         }
 
+        if is_opened_token {
+            return Err("token is not closed, expected ]]".to_string());
+        }
+
         if _buffer.len() != 0 {
             let static_ending : String = _buffer.into_iter().collect();
 
